@@ -121,6 +121,14 @@ def roundtrip(acc, r, subset, fmt, route, loadpath, used_before, tag):
     from yowsup.profile.profile import YowProfile
     vals = gen_values(r, subset, fmt)
     cfg = Config(**vals)
+    # the object holds what it was given, field by field (what is loaded later is compared with this object)
+    for f_ in FIELDS:
+        got_, want_ = getattr(cfg, f_), vals.get(f_)
+        if canon(f_, got_) != canon(f_, want_) or type(canon(f_, got_)) is not type(canon(f_, want_)):
+            acc.violation("constructed-differs:%s" % f_, "a configuration constructed with %s=%r reads %s=%r" % (f_, want_ if f_ not in BINARY else "<binary>", f_, got_ if f_ not in BINARY else "<binary>"),
+                          {"op": "construct", "tag": tag, "subset": subset, "fmt": fmt})
+            return
+    acc.count("constructed_fields_checked", len(FIELDS))
     T = ConfigManager.TYPE_KEYVAL if fmt == "keyval" else ConfigManager.TYPE_JSON
     ext = {"keyval": "yo", "json": "json"}[fmt]
     cm = ConfigManager()
@@ -427,5 +435,11 @@ def replay(spec, acc):
         pick_route(r)
         r.random()
         roundtrip(acc, r, w["subset"], w["fmt"], w["route"], w["loadpath"], w["used_before"], tag)
+    elif w["op"] == "construct":
+        if tag.startswith("rand/"):
+            gen.subset(r, OPTIONAL)
+        pick_route(r)
+        r.random()
+        roundtrip(acc, r, w["subset"], w["fmt"], "save-profile", "profile", True, tag)
     else:
         crash_case(acc, r, tag, w["with_previous"], w["chunked"], w["route"], w.get("prev_fmt", "json"))
